@@ -40,6 +40,8 @@ pub struct CoroutinePool<'p> {
     //任务队列
     #[doc = include_str!("../../docs/en/ordered-work-steal.md")]
     task_queue: OrderedLocalQueue<'p, Task<'p>>,
+    // the local queue has a single owner, but any thread may submit: serializes its push and pop
+    task_queue_lock: Mutex<()>,
     //工作协程组
     workers: Scheduler<'p>,
     //当前协程数
@@ -140,6 +142,7 @@ impl<'p> CoroutinePool<'p> {
                 crate::common::constants::TASK_GLOBAL_QUEUE_BEAN,
             )
             .local_queue(),
+            task_queue_lock: Mutex::new(()),
             keep_alive_time: AtomicU64::new(keep_alive_time),
             blocker: Arc::default(),
             results: DashMap::new(),
@@ -282,7 +285,13 @@ impl<'p> CoroutinePool<'p> {
     /// Allow multiple threads to concurrently submit task to the pool,
     /// but only allow one thread to execute scheduling.
     pub(crate) fn submit_raw_task(&self, task: Task<'p>) {
-        self.task_queue.push(task);
+        {
+            let _guard = self
+                .task_queue_lock
+                .lock()
+                .unwrap_or_else(std::sync::PoisonError::into_inner);
+            self.task_queue.push(task);
+        }
         self.blocker.notify();
     }
 
@@ -444,7 +453,14 @@ impl<'p> CoroutinePool<'p> {
     }
 
     fn try_run(&self) -> Option<()> {
-        self.task_queue.pop().map(|task| {
+        let task = {
+            let _guard = self
+                .task_queue_lock
+                .lock()
+                .unwrap_or_else(std::sync::PoisonError::into_inner);
+            self.task_queue.pop()
+        };
+        task.map(|task| {
             let task_id = task.id();
             if CANCEL_TASKS.contains(&task_id) {
                 _ = CANCEL_TASKS.remove(&task_id);
